@@ -1043,7 +1043,7 @@ theorem dispatchX_refines (tool : String) (ord : List String → Nat) (s : CliSp
     intro ns
     conv => rhs; rw [← List.map_id s.templates]
     exact List.map_congr_left (fun t ht => fixTemplate_id ord ns t ((List.all_eq_true.1 hof) t ht))
-  unfold dispatchSpecX dispatchTemplateX dispatchSpec dispatchTemplate
+  unfold dispatchSpecX callOf dispatchSpec dispatchTemplate
   simp only [hsx, hsup, htop, hni, Bool.not_true, Bool.false_eq_true, if_false]
   rw [parseX_refines s hstd hok argv hf]
   cases hp : parseArgs s argv with
@@ -1063,9 +1063,9 @@ theorem dispatchX_refines (tool : String) (ord : List String → Nat) (s : CliSp
       cases hi : instantiate (namespaceOf s b) t with
       | error e =>
         refine ⟨fun c h => by simp at h, fun h => ?_⟩
-        simp at h; subst h; simp [liftE, liftErr, Except.map]
+        simp at h; subst h; simp [liftErr, Except.map, quirkCrash]
       | ok c =>
         refine ⟨fun c' h => ?_, fun h => by simp at h⟩
-        simp at h; subst h; simp [liftE, Except.map]
+        simp at h; subst h; simp [Except.map, quirkCrash]
 
 end Cnfgen.Cli.AP
